@@ -230,6 +230,16 @@ def r09_3(ctx):
                     ok = mentions_field(pvn.operand(t["args"][0]), fld, CFG)
             r.ob("case:tree-flag:%s" % adt.rsplit("::", 1)[1], ok, nw.site, "the regex tree is created with config.%s" % fld)
         # request side host / header values
+        ah = F.fn("http::request::Request::add_header", required=False)
+        add_header_ok = False
+        if ah is not None:
+            rows_ah = {}
+            for p in Sym(ah, copies=True).paths():
+                fv = dict(p.conds).get(("param", 4))
+                for e in p.events:
+                    if e[0] == "call" and e[1] == "std::vec::Vec::push" and e[2][1][0] == "agg":
+                        rows_ah[fv] = dict(e[2][1][3]).get("value")
+            add_header_ok = rows_ah.get(1) == ("call", "str::to_lowercase", (("param", 3),)) and rows_ah.get(0) == ("param", 3)
         for key in ("http::request::Request::from_config", "http::request::Request::rebuild_with_config"):
             q = F.fn(key)
             r.analysed(q)
@@ -243,6 +253,12 @@ def r09_3(ctx):
                                 flags.add(x[2])
                         if a[0] == "field" and a[3] == "{closure}":
                             flags.add(a[2])
+                    # a flag handed to Request::add_header governs the lower-casing done there
+                    for e in p.events:
+                        if e[0] == "call" and e[1] == "http::request::Request::add_header" and len(e[2]) == 4 and add_header_ok:
+                            for x in walk(e[2][3]):
+                                if x[0] == "field" and x[3] == CFG and "case" in x[2]:
+                                    flags.add(x[2])
             want_flags = {"ignore_host_case"} if key.endswith("from_config") else {"ignore_host_case", "ignore_header_case"}
             got = {x.split(".")[-1].replace("config__", "") for x in flags}
             r.ob("case:%s" % key.rsplit("::", 1)[1], want_flags <= {g_ for g_ in got} or all(any(w in g_ for g_ in got) for w in want_flags), q.site, "lower-casing in %s is governed by %s" % (key.rsplit("::", 1)[1], sorted(got)))
@@ -261,23 +277,31 @@ def r09_4(ctx):
             r.ob("marketing:loop", False, f.site, "%d loops over the sorted parameters" % len(loops))
             return
         lp = loops[0]
-        # the two accumulators by role: the one returned in `skipped_query_params`, and the other one
+        # the two accumulators by role: the one returned in `skipped_query_params`, and the other one.  An
+        # accumulator is a local String, or a String field of a local state structure (identified by the field)
+        def acc_key(x):
+            if x[0] in ("local", "havoc"):
+                return ("local", x[1])
+            if x[0] == "field" and len(x) > 3 and x[1][0] in ("local", "havoc", "call") and x[3] and not x[3].startswith("std::"):
+                return ("field", x[2], x[3])
+            return None
         skipped_l = set()
         for p in s.paths():
             if p.end[0] == "ret" and p.end[1][0] == "agg":
                 sk = dict(p.end[1][3]).get("skipped_query_params")
                 if sk is not None:
                     for x in walk(sk):
-                        if x[0] in ("local", "havoc"):
-                            skipped_l.add(x[1])
+                        k = acc_key(x)
+                        if k is not None and not (x[0] in ("local", "havoc") and any(y[0] == "field" and y[1] == x for y in walk(sk))):
+                            skipped_l.add(k)
         pushed_l = set()
         fresh = set()  # strings created anew for each parameter are not accumulators
         for p in lp.iteration_paths(s):
             for e in p.events:
-                if e[0] == "call" and e[1] == "std::string::String::push_str" and e[2][0][0] == "local":
-                    pushed_l.add(e[2][0][1])
+                if e[0] == "call" and e[1] == "std::string::String::push_str" and acc_key(e[2][0]) is not None:
+                    pushed_l.add(acc_key(e[2][0]))
                 if e[0] == "init":
-                    fresh.add(e[1])
+                    fresh.add(("local", e[1]))
         pushed_l -= fresh
         skipped_l &= pushed_l
         query_l = pushed_l - skipped_l
@@ -293,8 +317,8 @@ def r09_4(ctx):
                 if a[0] == "call" and a[1].rsplit("::", 1)[1] == "contains" and mentions_field(a[2][0], "marketing_query_params", CFG):
                     mk = bool(v)
                     key_arg = a[2][1]
-            to_skipped = any(e[0] == "call" and e[1] == "std::string::String::push_str" and e[2][0][0] == "local" and e[2][0][1] in skipped_l for e in p.events)
-            to_query = any(e[0] == "call" and e[1] == "std::string::String::push_str" and e[2][0][0] == "local" and e[2][0][1] in query_l for e in p.events)
+            to_skipped = any(e[0] == "call" and e[1] == "std::string::String::push_str" and acc_key(e[2][0]) in skipped_l for e in p.events)
+            to_query = any(e[0] == "call" and e[1] == "std::string::String::push_str" and acc_key(e[2][0]) in query_l for e in p.events)
             rows.setdefault((ign, mk), set()).add((to_skipped, to_query))
         bad = []
         for (ign, mk), effs in rows.items():
@@ -325,7 +349,7 @@ def r09_4(ctx):
             if any(a[0] == "disc" and a[1][0] == "call" and a[1][1] == "str::parse" and v == "Err" for a, v in p.conds):
                 continue
             n += 1
-            empties = [v for a, v in p.conds if a[0] == "call" and a[1] == "std::string::String::is_empty" and a[2][0][0] == "local" and a[2][0][1] in skipped_l]
+            empties = [v for a, v in p.conds if a[0] == "call" and a[1] == "std::string::String::is_empty" and acc_key(a[2][0]) in skipped_l]
             is_some = sk is not None and sk[0] == "agg" and sk[2] == "Some"
             want = (pf == 1) and bool(empties) and empties[-1] == 0
             if is_some != want:
